@@ -320,6 +320,19 @@ inline std::string diff_kind(const Result& base, const Result& r, bool with_text
     return "same";
 }
 
+// Class key of a difference. Normally <fmt>/<what differs, with the exception texts>/<input class>/<where>: where =
+// the structural position of the smallest failing cut, or the kind of real file. o5m inputs in which the end of
+// the file comes less than 10 bytes after some data set's type byte are one class of their own whatever the cut
+// position and the wording of the error: there the parser's refill (ensure_bytes_available(max_varint_length)) runs
+// into the end of the input, which has nothing to do with where the cut is - a cut only changes how the buffer is
+// aligned at that moment.
+static const char* const O5M_SHORT_TAIL = "eof-within-9-bytes-after-a-dataset-type-byte";
+
+inline std::string class_key(const std::string& fmt, bool o5m_short_tail, const Result& base, const Result& r, const std::string& input_class, const std::string& where) {
+    if (o5m_short_tail) return fmt + "/" + diff_kind(base, r, false) + "/" + O5M_SHORT_TAIL;
+    return fmt + "/" + diff_kind(base, r) + "/" + input_class + "/" + where;
+}
+
 // ------------------------------------------------------------------------------------------------
 // segmentations: a sorted list of cut offsets 0 < c < n; chunk i is [c[i-1], c[i])
 using Cuts = std::vector<uint32_t>;
